@@ -14,6 +14,13 @@ CHECKS = {
             "leading zeros) shape and the complete single-edit neighbourhood of address/WIF/xpub-shaped encodings are run "
             "through the real codec and compared with an independent codec; complete within those bounds, silent beyond.",
             "DESIGN.md §4 C10", ""),
+    "C19": ("exploration", "E1 product",
+            "bounded exhaustive enumeration of scripts, truncations and parser inputs vs reference wire format",
+            "All element lengths 0..521, all non-push opcodes, all <=3-item sequences over the boundary alphabet, every strict "
+            "prefix of their serialisations, every byte string of length<=5 (thorough 6) over an 11-symbol alphabet as parser "
+            "input and all varints 0..70000 plus every power-of-two neighbourhood are executed on the real Script/varint "
+            "code and compared with a strict reference parser/serialiser.",
+            "DESIGN.md §4 C19", ""),
 }
 
 NOT_YET = "check not built yet in this session (work in progress; see DESIGN.md §9 build order)"
